@@ -1,5 +1,5 @@
 #!/usr/bin/env python3
-"""verify_seed.py <ID> [<seed-dir> [<agent-worktree>]]
+"""verify_seed.py <ID> [<seed-dir> [<agent-worktree> [<suffix>]]]   (suffix: "b" for a second seeded change of a property)
 
 Independently confirm a seeded change before keeping it (brief: "keep a change only after you have
 confirmed all of that yourself in a scratch worktree"):
@@ -14,7 +14,8 @@ import json, os, re, shutil, subprocess, sys
 ID = sys.argv[1]
 seed = sys.argv[2] if len(sys.argv) > 2 else "/tmp/seed/" + ID
 wt_agent = sys.argv[3] if len(sys.argv) > 3 else "/tmp/wt/" + ID
-wt = "/tmp/vs/" + ID
+SUFFIX = sys.argv[4] if len(sys.argv) > 4 else ""
+wt = "/tmp/vs/" + ID + SUFFIX
 env = dict(os.environ, GOFLAGS="-mod=mod", GOPROXY="off", GOSUMDB="off", GOTOOLCHAIN="local")
 
 
@@ -61,7 +62,7 @@ try:
     if failed:
         print(out[-3000:])
     meta["confirmed"] = (meta["suite_with_change"] == "pass" and meta["demo_with_change"] == "fails" and meta["demo_without_change"] == "passes")
-    dst = os.path.join("/verif/seeded", ID)
+    dst = os.path.join("/verif/seeded", ID + SUFFIX)
     if meta["confirmed"]:
         shutil.rmtree(dst, ignore_errors=True)
         os.makedirs(os.path.join(dst, "demo"), exist_ok=True)
